@@ -202,10 +202,16 @@ Inductive op :=
 | OClose (slot how : Z)                             (* both ends close (0) / reset (1) a held stream *)
 | ORelabel (slot side q : Z)                        (* SetProtocol(q) once more on the dialer's (0) /
                                                        the listener's (1) end of a held stream *)
-| OReconnect (dir wait : Z).                        (* the connection is closed and a new one appears below
+| OReconnect (dir wait : Z)                         (* the connection is closed and a new one appears below
                                                        the host (dir 0: dialer's Network().DialPeer, 1: the
                                                        listener dials = inbound); wait 0: the next op (an
                                                        open) races the new connection's identify *)
+| OPark (popens : list (bool * oreq)).              (* opens whose context does not allow the limited connection
+                                                       are parked, in this order, until a direct connection
+                                                       exists (Swarm.waitForDirectConn); true: the open's
+                                                       context ends while it is parked; then the listener
+                                                       dials the dialer directly; the direct connection is
+                                                       gone again when the op is over *)
 
 Inductive obs :=
 | ObMux (l : list Z)                     (* Mux().Protocols() in table order *)
@@ -213,7 +219,10 @@ Inductive obs :=
 | ObBatch (rs : list ores) (un : list (Z * Z)) (kn : list Z) (sc : list Z)
 | ObClose (sc : list Z)
 | ObRelabel (err dl ll : Z)              (* did SetProtocol fail; Protocol() of both ends afterwards *)
-| ObRe (mx : list Z) (sc : list Z).      (* what the listener advertises; scopes after the old streams died *)
+| ObRe (mx : list Z) (sc : list Z)       (* what the listener advertises; scopes after the old streams died *)
+| ObPark (mx : list Z) (rs : list ores) (un : list (Z * Z)) (kn : list Z) (sc : list Z).
+                                         (* what the listener advertises when the direct connection appears;
+                                            then as ObBatch *)
 
 Fixpoint zrange (from : Z) (n : nat) : list Z :=
   match n with O => [] | S k => from :: zrange (from + 1) k end.
@@ -221,6 +230,33 @@ Definition universe (U : Z) : list Z := zrange 0 (Z.to_nat U).
 
 Definition canon_know (U : Z) (k : list Z) : list Z := filter (fun p => memz p k) (universe U).
 Definition scope_vec (U : Z) (o i : Z -> Z) : list Z := map o (universe U) ++ map i (universe U).
+
+(* ---- opens parked until a direct connection exists --------------------------
+   Swarm.NewStream finds a limited connection and a context without
+   WithAllowLimitedConn: waitForDirectConn appends the open's channel to the
+   per-peer list directConnNotifs.m[p] and waits.  An open whose context ends
+   removes ITS OWN entry from the list (slices.DeleteFunc ... c == ch) and
+   fails.  addConn of a direct connection closes every channel of the list and
+   deletes the entry: every open still parked goes on over the new connection.
+   A parked open is named by its position in registration order. *)
+Definition park_register (ws : list Z) (id : Z) : list Z := ws ++ [id].
+Definition park_expire (ws : list Z) (id : Z) : list Z := filter (fun j => negb (j =? id)) ws.
+Definition park_notify (ws : list Z) : list Z * list Z := (ws, []).   (* woken, still listed *)
+
+Definition park_ids (popens : list (bool * oreq)) : list Z := zrange 0 (length popens).
+Definition park_expired (popens : list (bool * oreq)) : list Z :=
+  map fst (filter (fun x => fst (snd x)) (combine (park_ids popens) popens)).
+(* all register, the ones whose context ends leave one by one, the direct connection wakes the rest *)
+Definition park_woken (popens : list (bool * oreq)) : list Z :=
+  fst (park_notify (fold_left park_expire (park_expired popens)
+                              (fold_left park_register (park_ids popens) []))).
+(* the opens as a batch: an open that was woken is handed a connection that may
+   carry its stream (it passes the gate of open1 like an open whose context allows
+   the limited connection); one that was not fails at the gate *)
+Definition park_batch (popens : list (bool * oreq)) : list oreq :=
+  map (fun x => let q := snd (snd x) in
+                mkReq (q_reqs q) (q_extra q) (q_race q) (memz (fst x) (park_woken popens)))
+      (combine (park_ids popens) popens).
 
 Section MSRun.
   Variable ms_select : (Z -> bool) -> list Z -> option Z.
@@ -274,6 +310,16 @@ Section MSRun.
         let z := fun _ : Z => 0 in
         (mkSt (tbl s) (nreg s) (mux_protocols (tbl s)) z z [] (nslot s),
          ObRe (mux_protocols (tbl s)) (scope_vec U z z))
+    | OPark popens =>
+        (* identify on the direct connection replaces what the peerstore lists for the
+           listener (as in OReconnect) and the woken opens wait for it; the streams of
+           the limited connection stay *)
+        let kn0 := mux_protocols (tbl s) in
+        let '(b, rs) := run_batch ms_select ms_lazy c (tbl s) kn0
+                          (mkB (outD s) (inL s) [] (held s) (nslot s)) (park_batch popens) in
+        let k := kn0 ++ b_add b in
+        (mkSt (tbl s) (nreg s) k (b_out b) (b_in b) (b_held b) (b_nslot b),
+         ObPark kn0 rs (flat_map o_un rs) (canon_know U k) (scope_vec U (b_out b) (b_in b)))
     end.
 
   Fixpoint trace (U : Z) (c : cfg) (s : st) (ops : list op) : list (op * obs) :=
